@@ -125,6 +125,22 @@ def insertSorted (x : Nat × String) : List (Nat × String) → List (Nat × Str
   | [] => [x]
   | y :: ys => if x.1 ≤ y.1 then x :: y :: ys else y :: insertSorted x ys
 
+def insertStr (x : String) : List (String × Nat) → List (String × Nat)
+  | [] => [(x, 1)]
+  | (y, n) :: ys => if x == y then (y, n + 1) :: ys else if x < y then (x, 1) :: (y, n) :: ys else (y, n) :: insertStr x ys
+
+/-- `saveseq`: the recording threads run one after the other; every recorded event must be in the file -/
+def opSaveSeq (s : St) : String :=
+  let evs : List String := s.progs.flatMap fun (_, p) => p.filterMap fun o =>
+    match o with
+    | some (.begin n c) => some ("B." ++ n ++ "." ++ c.getD "-")
+    | some .end_ => some "E"
+    | some (.marker n c) => some ("M." ++ n ++ "." ++ c.getD "-")
+    | some (.counter n v) => some ("C." ++ n ++ "." ++ toString v)
+    | _ => none
+  let counts := evs.foldl (fun acc e => insertStr e acc) []
+  "seq shape=1 n=" ++ toString evs.length ++ String.join (counts.map fun (e, n) => " " ++ e ++ "x" ++ toString n)
+
 def opSave (cs : Nat) (s : St) (proc : String) : String :=
   let calls := interleave s.progs 1000000 #[]
   let r := calls.foldl (record cs) ([] : Recorder)
@@ -172,6 +188,7 @@ def stepSt (cs : Nat) (s : St) : List String → St × String
     | some k, some ops => ({ s with progs := addProg s.progs k ops }, "ok")
     | _, _ => (s, "bad-op")
   | ["save", proc] => (s, opSave cs s proc)
+  | ["saveseq", _] => (s, opSaveSeq s)
   | _ => (s, "bad-op")
 
 def main (args : List String) : IO Unit :=
